@@ -5,18 +5,22 @@ import numpy as np
 from . import env
 
 
-def numpy_convert(data, out, bpv, blockshape, ilines=None, xlines=None, samples=None, trace_headers=None):
+def numpy_convert(data, out, bpv, blockshape, ilines=None, xlines=None, samples=None, trace_headers=None, earlier=()):
+    """`earlier`: (out, bpv, blockshape) conversions run first on the *same* converter object (the
+    converter classes are documented as writing "SGZ file(s)")."""
     from seismic_zfp.conversion import NumpyConverter
     kw = {}
     if trace_headers is not None:
         kw["trace_headers"] = trace_headers
     with env.quiet():
         with NumpyConverter(data, ilines=ilines, xlines=xlines, samples=samples, **kw) as c:
+            for o0, b0, s0 in earlier:
+                c.run(o0, bits_per_voxel=b0, blockshape=s0)
             c.run(out, bits_per_voxel=bpv, blockshape=blockshape)
 
 
 def segy_convert(path, out, bpv=4, blockshape=None, reduce_iops=False, header_detection="heuristic", queue=None,
-                 window=None, cls="SegyConverter"):
+                 window=None, cls="SegyConverter", earlier=()):
     import seismic_zfp.conversion as conv
     C = getattr(conv, cls)
     kw = {}
@@ -33,6 +37,8 @@ def segy_convert(path, out, bpv=4, blockshape=None, reduce_iops=False, header_de
                     _c.mem_limit = 2 * inline_set_bytes * _q
                     return _orig(inline_set_bytes=inline_set_bytes)
                 c.check_memory = check_memory
+            for o0, b0, s0 in earlier:
+                c.run(o0, bits_per_voxel=b0, blockshape=s0, reduce_iops=reduce_iops, header_detection=header_detection)
             c.run(out, bits_per_voxel=bpv, blockshape=blockshape, reduce_iops=reduce_iops,
                   header_detection=header_detection)
 
